@@ -242,6 +242,9 @@ namespace Pistache::Http::Mime
                     double val;
                     if (!match_double(&val, cursor))
                         raise("Invalid quality factor");
+                    // a quality value is in [0; 1] (this also rejects NaN)
+                    if (!(val >= 0.0 && val <= 1.0))
+                        raise("Invalid quality factor");
                     q_ = Q::fromFloat(val);
                 }
                 else
